@@ -2,6 +2,7 @@
 usage: seedtest.py <seed_dir> <seed_id> <Cxx> [Cyy..]   (seed_dir has patch.diff, demo.rs, meta.json)
 Applies the patch to /repo (never committed), runs baseline + demo + checks, always reverts."""
 import json, os, shutil, subprocess, sys, time
+os.environ["VERIF_EVIDENCE_DIR"] = "/tmp/verif_dev_evidence"
 
 seed_dir, seed_id = sys.argv[1], sys.argv[2]
 checks = sys.argv[3:]
